@@ -155,6 +155,8 @@ def extreme_weights(prog, rng):
 
 
 WITNESSES = [
+    # minimal witness of keep_all + propagate_weights -> TypeError (float(None)) in add_atom
+    "n(a). 0.5::p(X) :- n(X). query(p(a)).",
     # evidence on derived atoms, AD summing to one (ConstraintAD's own propagation with a semiring)
     "0.5::a; 0.5::b. c :- a. c :- b, d. 0.3::d. query(a). query(d). evidence(c,true). evidence(b,false).",
     "0.3::a. 0.4::b. c :- a, b. d :- c. d :- \\+a. query(a). query(b). evidence(d,true). evidence(c,false).",
